@@ -861,3 +861,204 @@ func R21TemplateEnd(c *Ctx) {
 		c.R.Anchor(rule, "stores to templateParts.Tokens and templateParser.pos")
 	}
 }
+
+// R21ScanOrigin — positions are counted over the caller's own buffer.
+func R21ScanOrigin(c *Ctx) {
+	const rule = "R21-scan-origin"
+	c.R.Rule(rule, "the entry points that hand a caller's buffer and start position to a scanner (json.parseFileContent/parseExpression → scan, hclsyntax.ParseConfig/ParseExpression/ParseTemplate/LexConfig/… → scanTokens) pass the buffer parameter itself together with the start parameter itself: a buffer that was trimmed or re-sliced first while the start position stays put shifts every token, node and diagnostic range against the bytes the caller holds", 4)
+	type ref struct{ pkg, scanner string }
+	n := 0
+	for _, r := range []ref{{PkgJSON, "scan"}, {PkgYaotl + "/hclsyntax", "scanTokens"}} {
+		sc := c.P.Func(r.pkg, r.scanner)
+		if sc == nil {
+			c.R.Anchor(rule, r.pkg+"."+r.scanner)
+			continue
+		}
+		node := c.P.CHA().Nodes[sc]
+		if node == nil {
+			continue
+		}
+		for _, e := range node.In {
+			if e.Site == nil || e.Site.Common().StaticCallee() != sc {
+				continue
+			}
+			caller := e.Site.Parent()
+			args := e.Site.Common().Args
+			if len(args) < 2 {
+				continue
+			}
+			// only entry points: the caller has a []byte parameter and a position parameter
+			var bufParam, posParam *ssa.Parameter
+			for _, p := range caller.Params {
+				if p.Type().String() == "[]byte" && bufParam == nil {
+					bufParam = p
+				}
+				if strings.HasSuffix(p.Type().String(), "yaotl.Pos") && posParam == nil {
+					posParam = p
+				}
+			}
+			if bufParam == nil || posParam == nil {
+				continue
+			}
+			n++
+			construct := r.scanner + "(<buffer parameter>, …<start parameter>…)"
+			bufIsParam := ParamOf(args[0]) == bufParam
+			usesStart := false
+			for _, a := range args[1:] {
+				if DerivesFrom(a, func(v ssa.Value) bool { return ParamOf(v) == posParam }) {
+					usesStart = true
+				}
+			}
+			derivedBuf := !bufIsParam && DerivesFrom(args[0], func(v ssa.Value) bool { return ParamOf(v) == bufParam })
+			startIsParam := false
+			for _, a := range args[1:] {
+				if ParamOf(a) == posParam {
+					startIsParam = true
+				}
+				// pos{Filename: …, Pos: start}: a struct built directly from the parameter
+				if al, ok := derefOr(a).(*ssa.Alloc); ok {
+					for _, rr := range *al.Referrers() {
+						if fa, ok := rr.(*ssa.FieldAddr); ok {
+							for _, r2 := range *fa.Referrers() {
+								if st, ok := r2.(*ssa.Store); ok && st.Addr == ssa.Value(fa) && ParamOf(st.Val) == posParam {
+									startIsParam = true
+								}
+							}
+						}
+					}
+				}
+			}
+			switch {
+			case bufIsParam:
+				c.R.Ok(rule, FuncShort(caller), construct, c.pos(e.Site.Pos()), "scans the caller's buffer from the caller's start position", true)
+			case derivedBuf && usesStart && startIsParam:
+				c.R.Bad(rule, FuncShort(caller), construct, c.pos(e.Site.Pos()), "the scanner gets a buffer derived from the parameter (trimmed, re-sliced, copied) but the unmodified start position: all ranges are shifted against the caller's bytes")
+			default:
+				c.R.Ok(rule, FuncShort(caller), construct, c.pos(e.Site.Pos()), "buffer and start position are both derived", true)
+			}
+		}
+	}
+	if n == 0 {
+		c.R.Anchor(rule, "entry points calling scan/scanTokens")
+	}
+}
+
+// R21RangeAssigned — a source range put into a node or diagnostic was assigned on the path that got there.
+func R21RangeAssigned(c *Ctx) {
+	const rule = "R21-range-assigned"
+	c.R.Rule(rule, "in the hclsyntax parser files every read of a local hcl.Range variable is preceded, on every path from the function's entry, by an assignment to it (a whole-value store or a store to its Start and End): a branch that leaves such a variable at its zero value yields a node whose range is byte 0 / line 0 with an empty file name — outside the input and not containing its children", 3)
+	n := 0
+	for _, fn := range c.P.ModuleFuncs(func(p string) bool { return p == PkgYaotl+"/hclsyntax" }) {
+		if fn.Blocks == nil || !fn.Pos().IsValid() {
+			continue
+		}
+		file := c.P.Fset.Position(fn.Pos()).Filename
+		if !strings.Contains(file, "/hclsyntax/parser") {
+			continue
+		}
+		for _, b0 := range fn.Blocks {
+			for _, in := range b0.Instrs {
+				al, ok := in.(*ssa.Alloc)
+				if !ok || al.Heap && false {
+					continue
+				}
+				if !strings.HasSuffix(al.Type().String(), "yaotl.Range") || al.Comment == "complit" || al.Comment == "" {
+					continue
+				}
+				// assignments and reads
+				assignIn := map[*ssa.BasicBlock]int{} // block -> index of first assigning instruction
+				type read struct {
+					in  ssa.Instruction
+					idx int
+				}
+				var reads []read
+				escapes := false
+				note := func(i ssa.Instruction, assign bool) {
+					idx := InstrBlockIndex(i)
+					if assign {
+						if cur, ok := assignIn[i.Block()]; !ok || idx < cur {
+							assignIn[i.Block()] = idx
+						}
+					} else {
+						reads = append(reads, read{i, idx})
+					}
+				}
+				for _, r := range *al.Referrers() {
+					switch u := r.(type) {
+					case *ssa.Store:
+						if u.Addr == ssa.Value(al) {
+							note(u, true)
+						} else {
+							escapes = true
+						}
+					case *ssa.UnOp:
+						note(u, false)
+					case *ssa.FieldAddr:
+						for _, r2 := range *u.Referrers() {
+							switch u2 := r2.(type) {
+							case *ssa.Store:
+								if u2.Addr == ssa.Value(u) {
+									note(u2, true)
+								}
+							case *ssa.UnOp:
+								note(u2, false)
+							case *ssa.FieldAddr:
+								for _, r3 := range *u2.Referrers() {
+									if st, ok := r3.(*ssa.Store); ok && st.Addr == ssa.Value(u2) {
+										note(st, true)
+									} else if ld, ok := r3.(*ssa.UnOp); ok {
+										note(ld, false)
+									}
+								}
+							default:
+								escapes = true
+							}
+						}
+					case *ssa.DebugRef:
+					default:
+						escapes = true // address passed on (to a call, a closure): assigned elsewhere
+					}
+				}
+				if escapes || len(reads) == 0 {
+					continue
+				}
+				n++
+				// blocks reachable from the entry without passing an assignment
+				unassignedAtEntry := map[*ssa.BasicBlock]bool{}
+				stack := []*ssa.BasicBlock{fn.Blocks[0]}
+				for len(stack) > 0 {
+					b := stack[len(stack)-1]
+					stack = stack[:len(stack)-1]
+					if unassignedAtEntry[b] {
+						continue
+					}
+					unassignedAtEntry[b] = true
+					if _, assigns := assignIn[b]; assigns {
+						continue
+					}
+					stack = append(stack, b.Succs...)
+				}
+				bad := ""
+				for _, r := range reads {
+					b := r.in.Block()
+					if !unassignedAtEntry[b] {
+						continue
+					}
+					if ai, ok := assignIn[b]; ok && ai < r.idx {
+						continue
+					}
+					bad = c.pos(r.in.Pos())
+				}
+				construct := "local range " + al.Comment + " assigned before use"
+				if bad == "" {
+					c.R.Ok(rule, FuncShort(fn), construct, c.pos(al.Pos()), "every read follows an assignment", true)
+				} else {
+					c.R.Bad(rule, FuncShort(fn), construct, bad, "a path reaches this read without assigning the range: the node or diagnostic built from it gets the zero range (byte 0, line 0, no file name)")
+				}
+			}
+		}
+	}
+	if n == 0 {
+		c.R.Anchor(rule, "local hcl.Range variables in the hclsyntax parser")
+	}
+}
